@@ -1262,7 +1262,7 @@ impl<'a, I, A> Iterator for NamedStrategyIter<'a, I, A> {
     }
 
     fn size_hint(&self) -> (usize, Option<usize>) {
-        let len = self.probs.len() + self.singles.len();
+        let len = self.info.len() + self.singles.len();
         (len, Some(len))
     }
 }
@@ -1300,7 +1300,7 @@ impl<'a, A> Iterator for NamedStrategyActionIter<'a, A> {
 
     fn size_hint(&self) -> (usize, Option<usize>) {
         let len = match &self.iter {
-            ActionType::Data(zip) => zip.len(),
+            ActionType::Data(zip) => zip.clone().filter(|(_, prob)| prob > &&0.0).count(),
             ActionType::Single(once) => once.len(),
         };
         (len, Some(len))
